@@ -38,6 +38,10 @@ NSHARDS = {'quick': 16, 'thorough': 16}
 
 KINDS = {
     'gotwant': (['>>> print("good")', 'FAILMARK bad'], 'GotWantException'),
+    # the wrong want holds nothing but <BLANKLINE> markers (it is empty once normalised); the marker is on the source
+    # line, the offending want is the line below it
+    'gotwant_blankline': (['>>> print("good FAILMARK")', '<BLANKLINE>'], 'GotWantException'),
+    'gotwant_blankline_value': (['>>> gv = 5', '>>> gv  # FAILMARK', '<BLANKLINE>', '<BLANKLINE>'], 'GotWantException'),
     'gotwant_second': (['>>> print("ok")', 'ok', '>>> print("good")', 'FAILMARK bad'], 'GotWantException'),
     'raise': (['>>> raise ValueError("FAILMARK")'], 'ValueError'),
     'called_mod': (['>>> modfunc_bad()  # FAILMARK'], 'ZeroDivisionError'),
@@ -85,6 +89,7 @@ KINDS = {
     'with_raise': (['>>> import contextlib', '>>> with contextlib.suppress(KeyError):', '...     a = 1',
                     '...     raise ValueError("FAILMARK")'], 'ValueError'),
 }
+WANT_BELOW_MARKER = ('gotwant_blankline', 'gotwant_blankline_value')
 KIND_NAMES = sorted(KINDS) + ['import_error']
 POSITIONS = ['first', 'middle', 'last']
 SHAPES = ['bare', 'wants', 'multiline', 'helpers']
@@ -250,7 +255,9 @@ def check_case(ctx, idx, kind, pos, shape, verbose, ctxno, cli=False):
                     ok = False
                     continue
                 n = int(m.group(2))
-                if not (1 <= n <= len(flines)) or marker not in flines[n - 1]:
+                if kind in WANT_BELOW_MARKER and 2 <= n <= len(flines) and marker in flines[n - 2]:
+                    pass        # the reported line is the first line of the offending want, right under the marked source
+                elif not (1 <= n <= len(flines)) or marker not in flines[n - 1]:
                     bad('render-wrong-line', 'the report points at line %d (%r), the failing line (%s) is line %d' % (
                         n, flines[n - 1] if 1 <= n <= len(flines) else None, marker,
                         1 + next(i for i, x in enumerate(flines) if marker in x)))
